@@ -3,6 +3,8 @@
 package actionlint
 
 import (
+	"regexp"
+	"strconv"
 	"strings"
 
 	"github.com/mattn/go-runewidth"
@@ -204,6 +206,36 @@ func HarnessC16Docker(L int) {
 	for _, e := range errs {
 		verifReach("diagnostic")
 		verifCheck(verifNot(verifMsgHasRawNewline(e.Message)), "raw-line-break-in-message")
+	}
+	verifReach("linted")
+}
+
+// HarnessC16Matcher: the one-line header of a diagnostic that echoes user text
+// (an unknown key of L printable ASCII bytes, quoted by the message) is parsed
+// back by the shipped problem-matcher pattern (.github/actionlint-matcher.json)
+// to the same file, line, column, message and kind.
+func HarnessC16Matcher(L int) {
+	K := verifSymString("key", L)
+	for i := 0; i < L; i++ {
+		verifAssumeNote(verifAnd(0x20 <= K[i], K[i] <= 0x7e), "C16 matcher: the echoed key is printable ASCII")
+	}
+	verifAssumeNote(K != "on" && K != "jobs" && K != "name" && K != "env", "C16 matcher: the key is not a known one (short ones listed)")
+	s := yScalar
+	doc := yDoc(yMap(s("on"), s("push"), s(K), s("v"), s("jobs"), yMap(s("j"), yMap(s("runs-on"), s("ubuntu-latest"), s("steps"), ySeq(yMap(s("run"), s("echo")))))))
+	verifPlace(doc, 1, 0)
+	p := &parser{}
+	p.parse(doc)
+	re := regexp.MustCompile(verifMatcherRegexp)
+	for _, e := range p.errors {
+		e.Filepath = "dir/w.yml"
+		header := e.Error()
+		m := re.FindStringSubmatch(header)
+		verifReach("diagnostic")
+		verifCheck(m != nil, "header-not-matched-by-the-problem-matcher")
+		if m != nil {
+			verifCheck(m[1] == e.Filepath && m[2] == strconv.Itoa(e.Line) && m[3] == strconv.Itoa(e.Column), "problem-matcher-parses-back-another-position")
+			verifCheck(m[4] == e.Message && m[5] == e.Kind, "problem-matcher-parses-back-another-message-or-kind")
+		}
 	}
 	verifReach("linted")
 }
